@@ -28,12 +28,12 @@ def fns(file, fl, self_ty="", trait="", extra="", header=""):
 
 
 def fn(name, ret="", requires=(), ensures=(), mode="verify", closures=None, loops=None, subst=None,
-       attrs="", proof_prologue="", proof_epilogue="", iter_loops=None, label="", opaque_quotes=(), tail_from="", tail_call="", method_helpers=None):
+       attrs="", proof_prologue="", proof_epilogue="", iter_loops=None, label="", opaque_quotes=(), tail_from="", tail_call="", method_helpers=None, chain_helpers=None):
     return {"name": name, "ret": ret, "requires": list(requires), "ensures": list(ensures),
             "mode": mode, "closures": closures or {}, "loops": loops or {}, "subst": subst or [],
             "attrs": attrs, "proof_prologue": proof_prologue, "proof_epilogue": proof_epilogue,
             "iter_loops": iter_loops or {}, "label": label, "opaque_quotes": list(opaque_quotes),
-            "tail_from": tail_from, "tail_call": tail_call, "method_helpers": method_helpers or {}}
+            "tail_from": tail_from, "tail_call": tail_call, "method_helpers": method_helpers or {}, "chain_helpers": chain_helpers or {}}
 
 
 def table(what, file, name):
@@ -814,6 +814,50 @@ def top_units():
     u += _assume([fns(F_JO, [GENERATE_STEPS], self_ty="JoinOutput")])
     u.append(raw("specs_top", _read("specs_top.rs")))
     u.append(fns(F_JO, [TO_TOKENS], self_ty="JoinOutput", trait="ToTokens", header="impl<'a> JoinOutput<'a>"))
+    # JoinOutput::new: the block that fills the fields (R15 block lifting): that it establishes jo_wf
+    for un in g:
+        if un.get("kind") == "type" and un.get("name") == "ActionExprChain":
+            u.append(un)
+        elif un.get("kind") == "lifted" and un["spec"]["name"] == "split_branch_steps":
+            un2 = dict(un)
+            un2["spec"] = dict(un["spec"], mode="assumed", closures={}, loops={}, iter_loops={}, subst=[], proof_prologue="", proof_epilogue="")
+            u.append(un2)
+    SPLIT_T = "((usize, Option<&'a PatIdent>), Vec<Vec<&'a ExprGroup<ActionExpr>>>)"
+    MSB = "branches@[%s].members@"
+    u.append({"kind": "lifted", "file": F_JO, "self_ty": "JoinOutput", "func": "new", "block_from": "let (depths_and_paths, chains)",
+              "header": "impl<'a> JoinOutput<'a>",
+              "sig": "new_fields(handler: Option<&'a Handler>, futures_crate_path: Option<&'a Path>, custom_joiner: Option<&'a TokenStream>, "
+                     "custom_transpose_results: Option<bool>, lazy_branches: Option<bool>, config: Config, branches: &'a [ActionExprChain], "
+                     "branch_count: usize, is_async: bool, is_try: bool, is_spawn: bool) -> Self",
+              "spec": fn("new_fields", "r", label="JoinOutput::new_fields",
+                         requires=["branch_count == branches@.len()", "branch_count >= 1",
+                                   "forall|b: int| 0 <= b < branches@.len() ==> (#[trigger] branches@[b]).members@.len() < usize::MAX",
+                                   "forall|b: int| 0 <= b < branches@.len() ==> branch_steps_ok((#[trigger] branches@[b]).members@)"],
+                         ensures=["jo_wf(r)", "new_fields_ok(r, branches@, branches@.len() as int)",
+                                  "r.branch_count == branch_count", "r.config == config", "r.handler == handler",
+                                  "r.futures_crate_path == futures_crate_path", "r.custom_joiner == custom_joiner",
+                                  "forall|b: int| 0 <= b < r.depths@.len() ==> (#[trigger] r.depths@[b]) <= r.max_step_count",
+                                  "exists|b: int| 0 <= b < r.depths@.len() && r.depths@[b] == r.max_step_count"],
+                         chain_helpers={"into_iter.unzip": "vec_unzip({})", "iter.max": "vec_max(&{})"},
+                         proof_epilogue="proof { lemma_new_fields(branch_count, depths@, chains@, branch_pats@, branches@); }",
+                         closures={
+                             "|expr_chain|": {"params": ["&'a ActionExprChain"], "ret": "(r: %s)" % SPLIT_T,
+                                              "requires": ["expr_chain.members@.len() < usize::MAX"],
+                                              "ensures": ["deep(r.1@) =~~= split_steps(expr_chain.members@, expr_chain.members@.len() as int)",
+                                                          "r.0.0 == r.1@.len()",
+                                                          "match expr_chain.ident { Some(p) => r.0.1 == Some(&p), None => r.0.1 is None }"],
+                                              "call_out": "Self::split_branch_steps(expr_chain)"},
+                         },
+                         iter_loops={"0": {"acc_ty": "(usize, Option<&'a PatIdent>); Vec<Vec<&'a ExprGroup<ActionExpr>>>", "invariant": [
+                             "__i <= __it.len()", "__it@ == branches@", "__a@.len() == __i", "__b@.len() == __i",
+                             "forall|b: int| 0 <= b < branches@.len() ==> (#[trigger] branches@[b]).members@.len() < usize::MAX",
+                             "forall|c: &'a ActionExprChain| c.members@.len() < usize::MAX ==> #[trigger] __f.requires((c,))",
+                             "forall|c: &'a ActionExprChain, r: %s| #[trigger] __f.ensures((c,), r) ==> (deep(r.1@) =~~= split_steps(c.members@, c.members@.len() as int) && r.0.0 == r.1@.len() "
+                             "&& (match c.ident { Some(p) => r.0.1 == Some(&p), None => r.0.1 is None }))" % SPLIT_T,
+                             "forall|b: int| 0 <= b < __i ==> deep((#[trigger] __b@[b])@) =~~= split_steps(%s, %s.len() as int)" % (MSB % "b", MSB % "b"),
+                             "forall|b: int| 0 <= b < __i ==> (#[trigger] __a@[b]).0 == split_steps(%s, %s.len() as int).len()" % (MSB % "b", MSB % "b"),
+                             "forall|b: int| 0 <= b < __i ==> match branches@[b].ident { Some(p) => (#[trigger] __a@[b]).1 == Some(&p), None => __a@[b].1 is None }",
+                         ], "body_prologue": "proof { assert(__it@[__i as int] == branches@[__i as int]); }"}})})
     return u
 
 
@@ -1064,9 +1108,9 @@ OBLIGATIONS = {
             ("core", "InitialExpr::replace_inner_exprs"), ("core", "ActionExpr::replace_inner_exprs"),
             ("core", "ExprGroup::replace_inner_exprs")],
     # the `~` mark (Deferred) reaches the generator unchanged: suffix of parse_until, parse_stream, the wrapper placeholder
-    "C03": [("step", "JoinOutput::generate_step"), ("step", "lemma_apos_step"), ("step", "lemma_apos_ends"), ("gen", "JoinOutput::generate_step_branch"), ("steps", "JoinOutput::generate_steps"), ("gen", "JoinOutput::split_branch_steps"), ("gen", "vec_last_push"), ("parse", "parse_until_suffix"), ("parse", "ActionGroup::parse_stream"), ("core", "ActionGroup::to_wrapper_action_expr"),
+    "C03": [("top", "JoinOutput::new_fields"), ("top", "lemma_new_fields"), ("step", "JoinOutput::generate_step"), ("step", "lemma_apos_step"), ("step", "lemma_apos_ends"), ("gen", "JoinOutput::generate_step_branch"), ("steps", "JoinOutput::generate_steps"), ("gen", "JoinOutput::split_branch_steps"), ("gen", "vec_last_push"), ("parse", "parse_until_suffix"), ("parse", "ActionGroup::parse_stream"), ("core", "ActionGroup::to_wrapper_action_expr"),
             ("core", "ActionGroup::new"), ("core", "ExprGroup::application_type"), ("core", "ExprGroup::new")],
-    "C06": [("steps", "JoinOutput::generate_steps"), ("steps", "JoinOutput::join_steps"), ("steps", "lemma_join_comma"), ("steps", "lemma_count_take_step"), ("gen", "JoinOutput::split_branch_steps"), ("parse", "parse_until_suffix"), ("parse", "ActionGroup::parse_stream"), ("core", "ActionGroup::to_wrapper_action_expr"),
+    "C06": [("top", "JoinOutput::new_fields"), ("top", "lemma_new_fields"), ("steps", "JoinOutput::generate_steps"), ("steps", "JoinOutput::join_steps"), ("steps", "lemma_join_comma"), ("steps", "lemma_count_take_step"), ("gen", "JoinOutput::split_branch_steps"), ("parse", "parse_until_suffix"), ("parse", "ActionGroup::parse_stream"), ("core", "ActionGroup::to_wrapper_action_expr"),
             ("core", "ActionGroup::new"), ("core", "ExprGroup::application_type"), ("core", "ExprGroup::new")],
     "C04": [("step", "JoinOutput::generate_step"), ("step", "lemma_apos_step"), ("step", "lemma_apos_ends"), ("gen", "JoinOutput::generate_step_branch"), ("steps", "JoinOutput::join_steps"), ("steps", "lemma_join_comma"), ("steps", "lemma_count_take_step"), ("gen", "JoinOutput::generate_results_transposer"), ("gen", "JoinOutput::active_step_branch_count"), ("gen", "JoinOutput::extract_results_tuple"), ("gen", "lemma_refs_toks"), ("gen", "lemma_filter_tokenizable"),
             ("gen", "JoinOutput::is_branch_active_in_step"), ("gen", "JoinOutput::generate_indexed_step_results_name"),
@@ -1083,7 +1127,7 @@ OBLIGATIONS = {
     "C05": [("steps", "JoinOutput::join_steps"), ("steps", "lemma_join_comma"), ("steps", "lemma_count_take_step"), ("gen", "JoinOutput::generate_results_transposer"), ("parse", "parse_until_suffix"), ("parse", "ActionGroup::parse_stream"),
             ("core", "ActionGroup::to_wrapper_action_expr"), ("core", "ActionGroup::new"), ("core", "ExprGroup::application_type")],
     "C12": [("sep", "JoinOutput::separate_block_expr_process"), ("sep", "JoinOutput::separate_block_expr_err"), ("sep", "JoinOutput::separate_block_expr_initial"), ("sep", "lemma_sep_step"), ("steps", "JoinOutput::join_steps"), ("steps", "lemma_join_comma"), ("steps", "lemma_count_take_step"), ("builder", "ActionExprChainBuilder::build_from_parse_stream"), ("gen", "JoinOutput::branch_result_name"), ("gen", "JoinOutput::branch_result_pat")],
-    "C15": [("steps", "JoinOutput::generate_steps"), ("gen", "lemma_split_balance"), ("gen", "lemma_accepted_chain_never_underflows"), ("gen", "JoinOutput::split_branch_steps"), ("gen", "JoinOutput::generate_step_branch"), ("parse", "parse_until_suffix"), ("builder", "ActionExprChainBuilder::build_from_parse_stream"), ("builder", "ActionExprChain::append_member"),
+    "C15": [("top", "JoinOutput::new_fields"), ("top", "lemma_new_fields"), ("steps", "JoinOutput::generate_steps"), ("gen", "lemma_split_balance"), ("gen", "lemma_accepted_chain_never_underflows"), ("gen", "JoinOutput::split_branch_steps"), ("gen", "JoinOutput::generate_step_branch"), ("parse", "parse_until_suffix"), ("builder", "ActionExprChainBuilder::build_from_parse_stream"), ("builder", "ActionExprChain::append_member"),
             ("builder", "lemma_append_facts"), ("builder", "lemma_balanced_depth"),
             ("gen", "JoinOutput::wrap_last_step_stream"), ("gen", "JoinOutput::process_step_action_expr"),
             ("gen", "JoinOutput::generate_def_and_step_streams"), ("gen", "JoinOutput::expand_process_expr"),
